@@ -55,24 +55,7 @@ impl WaitSlot {
         requires blocked.requires(()) { unimplemented!() }
 }
 
-// ---- TxDependency (tx_dependency.rs; real code under contract in U29) ----
-#[verifier::external_body] pub struct TxDependency { p: u8 }
-impl TxDependency {
-    pub uninterp spec fn released(&self, txid: TxId) -> bool;       // issued: remove(txid, _) has been called
-    pub uninterp spec fn committed(&self, txid: TxId) -> bool;      // issued: commit(txid)
-    pub uninterp spec fn parked(&self, txid: TxId) -> bool;         // issued: add(txid, _) or key_tx(txid, _)
-    pub uninterp spec fn num(&self) -> usize;
-    #[verifier::external_body] pub fn next(&self) -> (r: Option<TxId>) ensures r matches Some(i) ==> i < self.num() { unimplemented!() }
-    #[verifier::external_body] pub fn index(&self) -> usize { unimplemented!() }
-    #[verifier::external_body] pub fn remove(&self, txid: TxId, pop_next: bool) -> (r: Option<TxId>)
-        ensures self.released(txid), !pop_next ==> r is None, r matches Some(n) ==> n == txid + 1 && n < self.num() { unimplemented!() }
-    #[verifier::external_body] pub fn commit(&self, txid: TxId) requires txid < self.num(), ensures self.committed(txid) { unimplemented!() }
-    #[verifier::external_body] pub fn key_tx(&self, txid: TxId, c: PublishedCursorReader<'_>) ensures self.parked(txid) { unimplemented!() }
-    #[verifier::external_body] pub fn add(&self, txid: TxId, dep: Option<TxId>)
-        requires dep matches Some(d) ==> d < txid,    //@ID TxDependency_add.P1 : C16
-        ensures self.parked(txid) { unimplemented!() }
-}
-
+// ---- TxDependency: the real struct and the contracts proved in U29 are included (contract-only stubs here) ----
 // ---- Beneficiary (beneficiary.rs / beneficiary/history.rs; real code under contract in U10) ----
 pub struct BeneficiaryValidation { pub valid: bool, pub dependency: Option<TxId> }
 impl BeneficiaryValidation {
@@ -126,6 +109,7 @@ impl<DB: DatabaseRef> Scheduler<DB> {
         &&& self.tx_results.len() == self.block_size
         &&& self.txs.len() == self.block_size
         &&& self.block_size < usize::MAX
+        &&& self.tx_dependency.wf()
         &&& self.tx_dependency.num() == self.block_size
         &&& forall|i: int, v: Option<TransactionResult<DB::Error>>| 0 <= i < self.block_size && #[trigger] self.tx_results@[i].inv(v) <==> 0 <= i < self.block_size && result_ok(v, self.env.beneficiary)
         // assumed: incarnation counters never reach usize::MAX (one increment per execution attempt)
